@@ -37,6 +37,8 @@ func runC06(c *Ctx) {
 	dispatchDoneLast(c)
 	dispatchOnce(c)
 	layoutAgreement(c)
+	c13Accounting(c)
+	c06FedDoneLast(c)
 }
 
 // guardedFields lists struct fields and the mutex field that must be held to touch them.
